@@ -54,6 +54,36 @@ class HorizonBytesIO(io.BytesIO):
         return io.BytesIO.seek(self, *a)
 
 
+class BytesIOFeed(io.BytesIO):
+    """An io.BytesIO SUBCLASS fed over time (the idiom of the suite's own non-blocking test): None while open and drained, b''
+    after close, short reads when less is there than asked for."""
+    def __init__(self):
+        io.BytesIO.__init__(self)
+        self.eof = False
+        self.c = Counters()
+
+    def feed_bytes(self, data):
+        pos = self.tell()
+        self.seek(0, os.SEEK_END)
+        self.write(data)
+        self.seek(pos)
+
+    def finish(self):
+        self.eof = True
+
+    def read(self, n=-1):
+        self.c.reads += 1
+        got = io.BytesIO.read(self, n)
+        if not got and (n is None or n != 0):
+            if self.eof:
+                return b''
+            self.c.starved = True
+            return None
+        if n is not None and n > len(got):
+            self.c.starved = True
+        return got
+
+
 class SeekableFeed(io.RawIOBase):
     """Seekable, not a BytesIO; data appended over time; None while open and empty, b'' after close."""
     def __init__(self, max_read=None):
